@@ -480,7 +480,8 @@ Section Monitors2.
                 match stored_ with
                 | None => VBad 6
                 | Some s =>
-                    let stale := sv_life s <=? sv_age s (x_t0 o) in
+                    (* stale by the lifetime the cache documents (heuristics are optional, RFC 9111 §4.2.2) *)
+                    let stale := doc_lifetime (sv_status s) (sv_hdr s) <=? sv_age s (x_t0 o) in
                     let contacted := match fg_calls o with [] => false | _ => true end in
                     let st_ok :=
                       match st with
@@ -575,14 +576,34 @@ Section Monitors2.
                             sv_request_time := a; sv_response_time := b |} in
                 let now := x_t0 o in
                 let rcc := spec_cc (q_hdr q) in
-                let life0 := sv_life s in
+                let life0 := doc_lifetime (sv_status s) (sv_hdr s) in
                 let life := match sd_duration (bs "max-age") rcc with Some m => Z.min life0 m | None => life0 end in
                 let min_fresh := match sd_duration (bs "min-fresh") rcc with Some m => m | None => 0 end in
                 let very_fresh := sat_add (sat_add (sv_age s now) min_fresh) second <? life in
-                if negb (plain_get q0) then VNa
+                (* the cache selects, among the matching stored responses, the one with the most recent
+                   Date (RFC 9111 §4.1); the promise is about that one *)
+                let selected :=
+                  match find (fun ev => match ev with EvGetRefs _ _ => true | _ => false end) (x_events o) with
+                  | Some (EvGetRefs u _) =>
+                      match fold_left (fun a ev => match ev with
+                                                   | EvSetRefs u' l => if beq u u' then Some l else a
+                                                   | EvDel u' _ => if beq u u' then None else a
+                                                   | _ => a end) prefix None with
+                      | Some l =>
+                          match find_match (strip_refs l) (q_hdr q) 0 None with
+                          | Some (Some i) => match nth_error (strip_refs l) (Z.to_nat i) with
+                                             | Some r => beq (r_id r) k
+                                             | None => false end
+                          | _ => false
+                          end
+                      | None => false
+                      end
+                  | _ => false
+                  end in
+                if negb (plain_get q0) || negb selected then VNa
                 else match variant_match (e_hdr e) q0 q with
                      | Some true =>
-                         if very_fresh && negb (needs_validation s q now) && negb (sd_has (bs "no-store") rcc) then
+                         if very_fresh && negb (needs_validation_with life0 s q now) && negb (sd_has (bs "no-store") rcc) then
                            match how_, fg_calls o with
                            | FromStore, [] => VOk
                            | _, _ => VBad 1
